@@ -1,0 +1,33 @@
+//go:build verif
+
+// Copyright 2025 NVIDIA CORPORATION
+// SPDX-License-Identifier: Apache-2.0
+
+package cache
+
+// VerifInformersSynced reports whether every informer started by Run has synced.
+// Verification-only accessor: lets a harness spin on sync instead of the 100ms poll of WaitForCacheSync.
+func (sc *SchedulerCache) VerifInformersSynced() bool {
+	stopCh := make(chan struct{})
+	close(stopCh)
+	for _, synced := range sc.informerFactory.WaitForCacheSync(stopCh) {
+		if !synced {
+			return false
+		}
+	}
+	for _, synced := range sc.kubeAiSchedulerInformerFactory.WaitForCacheSync(stopCh) {
+		if !synced {
+			return false
+		}
+	}
+	return true
+}
+
+// VerifStatusUpdaterIdle reports whether the asynchronous status updater has no in-flight updates.
+func (sc *SchedulerCache) VerifStatusUpdaterIdle() bool {
+	type idler interface{ VerifIdle() bool }
+	if su, ok := sc.StatusUpdater.(idler); ok {
+		return su.VerifIdle()
+	}
+	return true
+}
